@@ -42,6 +42,14 @@ CHECKS.update({
             "-> one RST, futures complete at most once with error.Error subclasses, each terminating event completes what it concerns.",
             TB + "K=1 everywhere + K=2 on two scenarios (quick); K=2 everywhere + K=3 on single-request scenarios (thorough).",
             "DESIGN.md 6/C02"),
+    "C04": ("model_checking", E3,
+            "Real server context (fast / slow / failing / No-Response-suppressed / slow-failing handlers, CON and NON) fed with copies of "
+            "four request keys that share IPs and message IDs, timer firings, jumps to EXCHANGE_LIFETIME -/+ 1 ms and ACKs of the "
+            "separate response, for three seeds of the server's own MID counter that force collisions with request MIDs; all event "
+            "sequences to depth 4-5 (quick) / 6 (thorough) with dedup on dedup table + piggyback table + timers + counters + model. "
+            "Per copy: handler executions, byte-identical repetition of the first ACK (or silence), independence of endpoints, re-processing after expiry.",
+            TB + "EXCHANGE_LIFETIME (247 s) is computed from RFC defaults in the model, not read from the library.",
+            "DESIGN.md 6/C04"),
     "C14": ("model_checking", E2,
             "Scripted submissions of CON/NON requests to two peers; the monitor rebuilds open-exchange/backlog state per remote from the "
             "wire and the applied events: never two open CON exchanges per remote, FIFO release in the very step the exchange ahead ends, "
